@@ -51,6 +51,22 @@ def run(chk):
     chk.cov["replayed_behaviours"] += len(rows)
     chk.cov["traces_validated_against_impl"] += len(rows)
     chk.sample({"direction": "A", "set_program": rows[len(rows) // 3]})
+    # static vs dyn on EVERY configuration, valid or not (MC_IndParams: all one- and two-field deviations from the default
+    # over boundary grids): validate, name, size, init Ok/Err, over on 0 / 1 / 6 candles
+    ir = tlc("MC_IndParams", "MC_IndParams.cfg", workers=1, env={"CATALOG": cat}, timeout=1200)
+    if ir.error or ir.violation:
+        raise ToolError("MC_IndParams: %s" % (ir.error or ir.violation))
+    chk.add_tlc("MC_IndParams.cfg", ir, {"what": "configurations for the static-vs-dyn comparison"})
+    irows = [p for t, p in ir.printed if t == "REPLAY"]
+    if quick:
+        irows = irows[::3]
+    inf = os.path.join(wd, "indparams.ndjson")
+    write_ndjson(inf, irows)
+    for m in lines_of(run_harness(yv, ["ind-dyn-replay", inf, chk.seed], timeout=3000)):
+        if m.get("kind") == "mismatch":
+            chk.finding(m["key"], {"stage": "A:dyn-configs", "ctx": m.get("ctx"), "expected": m.get("expected"), "actual": m.get("actual")})
+    chk.stage("A:dyn-configs", configs=len(irows))
+    chk.cov["replayed_behaviours"] += len(irows)
     # name(), size(), result shape at every step, static vs dyn, init_fn, over: Api.tla programs on every indicator
     for m in ind_api(chk, yv, "c11api", quick):
         key = m["key"]
